@@ -10,6 +10,7 @@
    Parent objects in post-order; a cyclic forest has no such numbering and is
    handled separately, see [Model/ForestGraph.v]).  The root is the last node. *)
 From Coq Require Import NArith List Bool.
+From PV Require Export Spec.Cfg.
 Import ListNotations.
 Local Open Scope N_scope.
 
@@ -19,10 +20,6 @@ Inductive alt : Type :=
 
 Definition pnode := list alt.                       (* Parent.possibilities *)
 Definition forest := list pnode.
-
-Inductive tree : Type :=
-| TLeaf (sym s e : N)
-| TNode (prod s e : N) (cs : list tree).
 
 (* Generic bottom-up pass: [build f [] F] returns one value per node. *)
 Section Build.
